@@ -17,8 +17,8 @@ t=$(cargo test --workspace --no-fail-fast --offline 2>&1 | grep -E "^test result
 echo "tests(with): $t" | tee -a "$res"
 cp target/debug/scrut target/scrut.with
 bash OUT/demo.sh $wt/target/scrut.with >OUT/demo.with.log 2>&1; echo "demo(with): exit $?" | tee -a "$res"
-git stash -q
+git apply -R "$wt/OUT/patch.diff"
 cargo build --offline >/dev/null 2>&1 && echo "build(without): ok" | tee -a "$res"
 cp target/debug/scrut target/scrut.without
 bash OUT/demo.sh $wt/target/scrut.without >OUT/demo.without.log 2>&1; echo "demo(without): exit $?" | tee -a "$res"
-git stash pop -q
+git apply "$wt/OUT/patch.diff"
